@@ -295,7 +295,17 @@ func c07One(res *Result, base string, cs *c07Case, distinct map[string]struct{})
 		projEOL, projPad = "\n", 0
 	}
 	defer func() { projEOL, projPad = "\n", 0 }()
-	p, err := writeProject(base, cs.Content, false)
+	pbase := base
+	if ((res.Cases+spellingSeed)/5)%4 == 2 {
+		// where the project lives is an environment choice too: deep in the tree, every file name is longer than 256 bytes
+		pbase = filepath.Join(base, strings.Repeat("d", 140), strings.Repeat("e", 140))
+		if err := os.MkdirAll(pbase, 0o755); err != nil {
+			pbase = base
+		} else {
+			res.count("deep-directory")
+		}
+	}
+	p, err := writeProject(pbase, cs.Content, false)
 	if err != nil {
 		res.Error = err.Error()
 		return
